@@ -561,6 +561,18 @@ def execute(spec, world):
             with world.step(5, 5, use_fs=False):
                 dimless1 = observe.snapshot(tgt, None, only=set(DIMLESS))
             d = observe.diff_equiv(dimless0, dimless1, rtol=1e-7, atol_rel=1e-9)
+            # a descriptor that is not a finite number on one side (the elliptic-integral
+            # surface area of an ellipsoid over/underflows at sizes of 1e-9 / 1e+9, and the
+            # quotient with it) is undefined there, not "changed"
+            def _nonfinite(sn, k):
+                try:
+                    return sn[k][0] == "ok" and not np.all(np.isfinite(
+                        np.asarray(sn[k][1], dtype=float)))
+                except Exception:  # noqa: BLE001
+                    return False
+            kept = [x for x in d if not (_nonfinite(dimless0, x[0]) or _nonfinite(dimless1, x[0]))]
+            C["dimensionless_undefined_skips"] += len(d) - len(kept)
+            d = kept
             if d:
                 res["violations"].append(violation(
                     PROP, "similarity", "dimensionless %s changed across %s: %s" % (
